@@ -206,7 +206,7 @@ MIXIN_QUERIES = [
 
 def package_jobs():
     jobs = []
-    for j in corpus.fragment_packages(12, 5, 7, avoid=("UD", "node { ...UA }", "nodes {", "user { ...NA }", "named { ...MA ...NA }")):
+    for j in corpus.fragment_packages(12, 5, 7, avoid=("UD", "node { ...UA }", "nodes {", "user { ...NA }", "named { ...MA ...NA }", "...UE ...MA }")):
         jobs.append((j["schema"], j["queries"], None, None))
     for q in MIXIN_QUERIES:
         jobs.append((corpus.S_ABS, q, {"mixins.py": MIXIN_PY}, {"files_to_include": ["mixins.py"]}))
